@@ -350,8 +350,8 @@ PAIRS = [
          props=()),
     Pair("strategy-init-direct-vs-2d", DSS + "__init__", DIS + "__init__", props=("C14",)),
     Pair("has-annotated-features", DFS + "has_shape_annotated_features", IRF + "has_shape_annotated_features",
-         expected=[(r"return len\(self\._c_shapes_dict\[v0\]\) > 0",
-                    r"return len\(self\._c_shapes_dict\[v0\]\[_C_MAP_POS_DIRECT\]\) > 0 or len\(self\._c_shapes_dict\[v0\]\[_C_MAP_POS_INVERSE\]\) > 0",
+         expected=[(r"return v0 in self\._c_shapes_dict and bool\(self\._c_shapes_dict\[v0\]\)",
+                    r"return v0 in self\._c_shapes_dict and \(bool\(self\._c_shapes_dict\[v0\]\[_C_MAP_POS_DIRECT\]\) or bool\(self\._c_shapes_dict\[v0\]\[_C_MAP_POS_INVERSE\]\)\)",
                     "with inverse paths a shape has features when either half has")], props=("C02", "C14")),
 ]
 
